@@ -601,6 +601,40 @@ theorem panic_guards_present :
   · exact h
   · simp [h] at hn
 
+/-! ### the EKU filter of the validated configuration ("the instance matches its configuration") -/
+
+/-- **any_listed_no_filter.** "Any" listed anywhere in `ext_key_usages` — first, in the middle, last, more than once — means the
+validated configuration (and the instance built from it) filters on no EKU at all. -/
+theorem any_listed_no_filter (names : List String) (n : String) (hn : n ∈ names) (ha : ekuIsAny n = true) :
+    ekuFilter names = [] := by
+  unfold ekuFilter
+  have : names.any ekuIsAny = true := List.any_eq_true.mpr ⟨n, hn, ha⟩
+  simp [this]
+
+/-- **no_any_filter_is_list.** Without "Any" the filter is the configured list, name by name in order (for an accepted
+configuration every name is known, so nothing is dropped: same length). -/
+theorem no_any_filter_is_list (names : List String) (h : ∀ n ∈ names, ekuIsAny n = false) :
+    ekuFilter names = names.filterMap (fun n => Gen.ekuTable.lookup n) ∧
+    ((∀ n ∈ names, ekuKnown n = true) → (ekuFilter names).length = names.length) := by
+  have hany : names.any ekuIsAny = false := by
+    rw [List.any_eq_false]; intro n hn; simp [h n hn]
+  refine ⟨by simp [ekuFilter, hany], fun hk => ?_⟩
+  simp only [ekuFilter, hany, Bool.false_eq_true, if_false]
+  clear hany h
+  induction names with
+  | nil => rfl
+  | cons a t ih =>
+    have ha : ekuKnown a = true := hk a (List.mem_cons_self ..)
+    unfold ekuKnown at ha
+    obtain ⟨v, hv⟩ := Option.isSome_iff_exists.mp ha
+    simp [List.filterMap_cons, hv, ih (fun n hn => hk n (List.mem_cons_of_mem _ hn))]
+
+example : ekuFilter ["Any", "ServerAuth"] = [] := by decide
+example : ekuFilter ["ServerAuth", "Any", "ClientAuth"] = [] := by decide
+example : ekuFilter ["ServerAuth", "Any"] = [] := by decide
+example : ekuFilter ["Any", "ServerAuth", "Any"] = [] := by decide
+example : ekuFilter ["ServerAuth", "ClientAuth"] = ["x509.ExtKeyUsageServerAuth", "x509.ExtKeyUsageClientAuth"] := by decide
+
 /-- the EKU loop looks at every name and rejects an unknown one (regenerated: no `break` / `continue` / early return
 in the loop; `false` on the tree before the EKU fix) — what `ekusOk = List.all ekuKnown` models -/
 theorem eku_loop_checks_every_name : Gen.ekuLoopChecksEveryName = true ∧ Gen.ekuLoopRejectsUnknown = true := by decide
